@@ -151,7 +151,7 @@ def chk_mh_ratio(inp):
     return None
 
 
-def _gsl_oracle(X, y, W, shrinkage, penalty):
+def _gsl_oracle(X, y, W, shrinkage, penalty, standardise=False):
     import scipy.stats as ss
     X, y = np.asarray(X, dtype=float), np.asarray(y, dtype=float).reshape(-1)
     Xl, yl = X.tolist(), y.tolist()
@@ -161,6 +161,12 @@ def _gsl_oracle(X, y, W, shrinkage, penalty):
     m, S = F.sample_mean(Xl), F.sample_cov(Xl)
     if shrinkage == 'warton':
         S = F.warton(S, 1 - penalty, float(F.WARTON_EPS))
+    if shrinkage == 'glasso':
+        # sklearn's graphical lasso (assumed library) on the covariance, or on the correlation with the estimate rescaled
+        from sklearn.covariance import graphical_lasso
+        S = np.array(S, dtype=float).reshape(len(m), len(m))
+        sd = np.sqrt(np.diag(S)) if standardise else np.ones(len(m))
+        S = np.outer(sd, sd) * graphical_lasso(S / np.outer(sd, sd), alpha=penalty, max_iter=200)[0]
     return float(ss.multivariate_normal.logpdf(np.array(yl), mean=np.array(m), cov=np.array(S).reshape(len(m), len(m))))
 
 
@@ -174,8 +180,9 @@ def chk_likelihood(inp):
     which = inp['which']
     if which == 'gsl':
         W = None if inp.get('W') is None else np.array(inp['W'], dtype=float)
-        st, got = _call(pm.gaussian_syn_likelihood, X.copy(), yobs.copy(), shrinkage=inp.get('shrinkage'), penalty=inp.get('penalty'), whitening=W)
-        want = _gsl_oracle(X, y, W, inp.get('shrinkage'), inp.get('penalty'))
+        st, got = _call(pm.gaussian_syn_likelihood, X.copy(), yobs.copy(), shrinkage=inp.get('shrinkage'), penalty=inp.get('penalty'), whitening=W,
+                        standardise=bool(inp.get('standardise', False)))
+        want = _gsl_oracle(X, y, W, inp.get('shrinkage'), inp.get('penalty'), bool(inp.get('standardise', False)))
     elif which == 'go':
         st, got = _call(pm.gaussian_syn_likelihood_ghurye_olkin, X.copy(), yobs.copy())
         want = F.go_loglik_float(X, y)
@@ -422,6 +429,9 @@ def gen_cases(tier, seed):
             yield 'gsl-whitening', dict(base, which='gsl', W=(rs.randn(d, d) + 1.5 * np.eye(d)).tolist()), True
             yield 'gsl-warton', dict(base, which='gsl', shrinkage='warton', penalty=float(rs.uniform(0.1, 0.9))), True
             yield 'gsl-whitening-warton', dict(base, which='gsl', W=(rs.randn(d, d) + 1.5 * np.eye(d)).tolist(), shrinkage='warton', penalty=float(rs.uniform(0.1, 0.9))), True
+            if d >= 2:      # sklearn's graphical_lasso refuses a single feature
+                yield 'gsl-glasso', dict(base, which='gsl', shrinkage='glasso', penalty=float(rs.uniform(0.01, 0.2))), True
+                yield 'gsl-glasso-standardise', dict(base, which='gsl', shrinkage='glasso', penalty=float(rs.uniform(0.01, 0.2)), standardise=True), True
             yield 'ghurye-olkin', dict(base, which='go'), True
             far = X.mean(0) + 6.0 * np.sqrt(np.diag(np.atleast_2d(np.cov(X, rowvar=False)))) * np.sign(rs.randn(d))
             yield 'ghurye-olkin-far', dict(kind='likelihood', X=X.tolist(), y=far.tolist(), which='go'), True
